@@ -57,24 +57,89 @@ func (c *coreGen) genFraudForeignPunish(s *coreSnap, ri int, punish, rewardee st
 // checkForeignPunish: monitor `C03/frame/other-rollapp-record-changed` (+ the bond clause).  Evaluated
 // on an ACCEPTED fraud op whose punished sequencer belonged (before the op) to another rollapp than
 // the forked one.
+//
+// --- w-corem (integration with agent-corea): the three op kinds added to M-Core fork NOTHING, so for them
+// EVERY rollapp is an "other" rollapp (ri = -1 below):
+//   - `punish a<i> …` (standalone PunishSequencerProposal, C07.punish_keeps_roles): the same clauses as for
+//     the foreign punishment of a fraud proposal, for every rollapp incl. the punished sequencer's own —
+//     no state reverted, no revision, no queue / sequencer-height / liveness-event / notice entry touched,
+//     the punished record keeps everything but `tokens`, a punished proposer stays proposer;
+//   - `xferowner r<i> …` (MsgTransferOwnership): the same, nobody is punished, and the owner field of the
+//     named rollapp is the one field that may differ;
+//   - `set_seq_params …` (x/sequencer MsgUpdateParams): the same, nothing may differ.
 func (m *coreMon) checkForeignPunish(op string, f []string, kv map[string]string, res string, prev, cur *coreSnap) {
-	if prev == nil || len(f) < 2 || f[0] != "fraud" || res != "ok" || !strings.HasPrefix(kv["punish"], "a") || !strings.HasPrefix(f[1], "r") {
+	if prev == nil || len(f) < 2 || res != "ok" {
 		return
 	}
-	ri := int(atoi(strings.TrimPrefix(f[1], "r")))
-	a := int(atoi(strings.TrimPrefix(kv["punish"], "a")))
-	pq, ok := prev.Seqs[a]
-	if !ok || pq.Ra == ri {
+	ri, a, ownerOf := -1, -1, -1 // forked rollapp / punished sequencer / rollapp whose owner may be rewritten; -1 = none
+	var pq coreSeq
+	wasProp := false
+	switch f[0] {
+	case "fraud":
+		if !strings.HasPrefix(kv["punish"], "a") || !strings.HasPrefix(f[1], "r") {
+			return
+		}
+		ri = int(atoi(strings.TrimPrefix(f[1], "r")))
+		a = int(atoi(strings.TrimPrefix(kv["punish"], "a")))
+		q, ok := prev.Seqs[a]
+		if !ok || q.Ra == ri {
+			return
+		}
+		pq = q
+		m.r.Hit("fraud-punish-other-rollapp/accepted")
+	case "punish":
+		if !strings.HasPrefix(f[1], "a") {
+			return
+		}
+		a = int(atoi(strings.TrimPrefix(f[1], "a")))
+		q, ok := prev.Seqs[a]
+		if !ok {
+			m.violate("C03/frame/punish-proposal-accepted-for-non-sequencer", op)
+			return
+		}
+		pq = q
+		m.r.Hit("no-fork-op-frame/punish")
+	case "xferowner":
+		if !strings.HasPrefix(f[1], "r") {
+			return
+		}
+		ownerOf = int(atoi(strings.TrimPrefix(f[1], "r")))
+		m.r.Hit("no-fork-op-frame/xferowner")
+	case "set_seq_params":
+		m.r.Hit("no-fork-op-frame/set_seq_params")
+	default:
 		return
 	}
-	m.r.Hit("fraud-punish-other-rollapp/accepted")
-	wasProp := pq.Ra >= 0 && pq.Ra < len(prev.Ras) && prev.Ras[pq.Ra].Prop == a
-	if wasProp {
-		m.r.Hit("fraud-punish-other-rollapp-proposer/accepted")
+	if a >= 0 {
+		wasProp = pq.Ra >= 0 && pq.Ra < len(prev.Ras) && prev.Ras[pq.Ra].Prop == a
+		if wasProp && f[0] == "fraud" {
+			m.r.Hit("fraud-punish-other-rollapp-proposer/accepted")
+		} else if wasProp {
+			m.r.Hit("no-fork-op-frame/punish-proposer")
+		}
 	}
 	const sig = "C03/frame/other-rollapp-record-changed"
 	bad := func(format string, args ...interface{}) {
-		m.violate(sig, fmt.Sprintf("`%s` (forks r%d, punishes a%d of r%d): ", op, ri, a, pq.Ra)+fmt.Sprintf(format, args...))
+		what := fmt.Sprintf("`%s` (forks nothing): ", op)
+		if f[0] == "fraud" {
+			what = fmt.Sprintf("`%s` (forks r%d, punishes a%d of r%d): ", op, ri, a, pq.Ra)
+		}
+		m.violate(sig, what+fmt.Sprintf(format, args...))
+	}
+	if f[0] != "fraud" {
+		// no fork: nothing is added anywhere either
+		if len(cur.Ras) != len(prev.Ras) {
+			bad("%d rollapp records -> %d", len(prev.Ras), len(cur.Ras))
+		}
+		if x, y := strings.Join(prev.Queue, ";"), strings.Join(cur.Queue, ";"); x != y {
+			bad("finalization queue: %s -> %s", x, y)
+		}
+		if x, y := fmt.Sprint(prev.Lev), fmt.Sprint(cur.Lev); x != y {
+			bad("liveness events: %s -> %s", x, y)
+		}
+		if x, y := fmt.Sprint(prev.Pk), fmt.Sprint(cur.Pk); x != y {
+			bad("pending delayed packets: %s -> %s", x, y)
+		}
 	}
 	// every field of every other rollapp's observation: existence, launched, genesis-bridge height,
 	// revisions, latest index, latest finalized index, liveness event height / countdown start, proposer,
@@ -87,7 +152,11 @@ func (m *coreMon) checkForeignPunish(op string, f []string, kv map[string]string
 			bad("r%d disappeared", rj)
 			continue
 		}
-		if x, y := fmt.Sprintf("%+v", prev.Ras[rj]), fmt.Sprintf("%+v", cur.Ras[rj]); x != y {
+		pr, cr := prev.Ras[rj], cur.Ras[rj]
+		if rj == ownerOf { // MsgTransferOwnership of this rollapp: the owner (monitored by C11/owner/…) may differ
+			pr.Owner, cr.Owner, pr.OwnerBlocked, cr.OwnerBlocked = "", "", false, false
+		}
+		if x, y := fmt.Sprintf("%+v", pr), fmt.Sprintf("%+v", cr); x != y {
 			bad("record of r%d: %s -> %s", rj, trunc200(x), trunc200(y))
 		}
 	}
@@ -172,7 +241,7 @@ func (m *coreMon) checkForeignPunish(op string, f []string, kv map[string]string
 			if !same {
 				bad("punished a%d: %+v -> %+v (only tokens may change)", i, p, c)
 			}
-			if !c.Tokens.IsZero() {
+			if !c.Tokens.IsZero() && f[0] == "fraud" { // the standalone proposal: C07/punish/… in core_test.go
 				m.violate("C03/frame/other-rollapp-punished-bond-not-zero", fmt.Sprintf("`%s`: a%d keeps %s of %s", op, i, c.Tokens, p.Tokens))
 			}
 		} else if !same || !c.Tokens.Equal(p.Tokens) {
